@@ -254,7 +254,7 @@ pub fn replay_case(c: &Value, acc: &mut Acc) {
 pub fn run(tier: &str) -> ! {
     let mut rep = Report::new("C17", tier);
     crate::dom::quiet_panics();
-    let max_len = if rep.is_thorough() { 6 } else { 5 };
+    let max_len = if rep.is_thorough() { 7 } else { 5 };
     let total = count_strings(ALPHA.len(), max_len);
     let chunk = 256u64;
     let shards = ((total + chunk - 1) / chunk) as usize;
